@@ -393,6 +393,12 @@ class Fn:
             self._decompose(n['l'], False, res)
             self._decompose(n['r'], False, res)
             return
+        if k == 'bin' and n['op'] in ('&&', '||'):
+            # not decomposable by polarity alone; but the block that owns this terminator evaluates the
+            # right-most operand last, and on its outgoing edges the whole expression equals that operand
+            res.append((c, pol))
+            self._decompose(n['r'], pol, res)
+            return
         # inline boolean single-assignment locals
         if k == 'var' and n.get('vk') == 'local':
             d = self.single_def(n['decl'])
